@@ -1213,7 +1213,11 @@ class Runner:
         if out[0] == 'ok':
             y = out[1]
             want = t.replace(old, newtext, count)
-            if y._s != want:
+            if new[0] == 's' and '\x1b' in newtext:
+                # a replacement *string* is parsed by the constructor (documented), so escape sequences in it
+                # do not become text: the text clause is not claimed for such arguments
+                pass
+            elif y._s != want:
                 viol.append(('C10', 'replace_text', '%r.replace(%r,%r,%r): %r vs %r' % (t, old, newtext, count, y._s, want)))
             elif old:
                 viol += self.oracle_replace(pre, pre_new, y, old, newtext, count, new)
